@@ -14,7 +14,7 @@ ASSUMPTIONS = [
     "schedule_future(other,t), re-schedule itself once per foreign hand-over and only on RUN_READY, cancel(other) if "
     "pending}; quick = 20 single-behaviour (every target, every time) + 12 hand-picked assignments on 3 tasks; thorough = "
     "additionally all 5^3 kind assignments for 3 tasks in two parametrisations (target next/previous task, times 1/now "
-    "resp. UINT64_MAX/2), the 32 quick assignments + 2 more on 4 tasks, and 8 assignments with injected push failures",
+    "resp. UINT64_MAX/2), the 32 quick assignments + 2 more on 4 tasks, and 25 assignments (plain, 20 single-behaviour, 4 interplay) with injected push failures",
     "documented preconditions only: a task is handed over only while it is not pending (also from callbacks); cancel is "
     "applied only to pending tasks (DESIGN section 6); inside clean_up each task function schedules at most once, so "
     "clean_up terminates",
